@@ -44,13 +44,19 @@ structure Inv (s : State) : Prop where
   clientEq : s.cnext + s.cavail = s.cblk.length
   prov : ∃ old cur, s.cb = old ++ cur ∧ cur.length ≤ s.cnext ∧
           cur = (s.cblk.take s.cnext).drop (s.cnext - cur.length) ∧ (old ≠ [] → s.cnext = cur.length)
-  eofSrc : s.eof = true → s.src = [] ∧ s.term = .eof
+  eofSrc : s.eof = true → s.src = [] ∧ s.later = [] ∧ s.term = .eof
   srcOk : SrcOk s.src
+  laterOk : ∀ n ∈ s.later, SrcOk n
+
+theorem inv_init_nodes (src : List (List Nat)) (later : List (List (List Nat))) (t : Term) (sk : List Int)
+    (cs : Bool) (h : SrcOk src) (hl : ∀ n ∈ later, SrcOk n) :
+    Inv { src := src, later := later, term := t, skips := sk, canSkip := cs } :=
+  { cbIn := by simp, bufLt := by simp, clientEq := by simp,
+    prov := ⟨[], [], by simp⟩, eofSrc := by simp, srcOk := h, laterOk := hl }
 
 theorem inv_init (src : List (List Nat)) (t : Term) (sk : List Int) (cs : Bool) (h : SrcOk src) :
     Inv { src := src, term := t, skips := sk, canSkip := cs } :=
-  { cbIn := by simp, bufLt := by simp, clientEq := by simp,
-    prov := ⟨[], [], by simp⟩, eofSrc := by simp, srcOk := h }
+  inv_init_nodes src [] t sk cs h (by simp)
 
 theorem growLoop_ok (fuel s min : Nat) (hs : 0 < s) (hs2 : s < 2 ^ 63) (hmin : min ≤ 2 ^ 62)
     (hf : min ≤ s * 2 ^ fuel) :
@@ -92,15 +98,18 @@ theorem client_take (s : State) (h : s.cnext + s.cavail = s.cblk.length) :
   apply List.take_of_length_le
   simp; omega
 
+/-- Bytes the source has not delivered yet: rest of the current data node, then the later nodes. -/
+def tailBytes (s : State) : List Nat := s.src.flatten ++ s.later.flatten.flatten
+
 theorem remaining_eq (s : State) (h : s.cnext + s.cavail = s.cblk.length) :
-    remaining s = s.cb ++ s.cblk.drop s.cnext ++ s.src.flatten := by
-  unfold remaining; rw [client_take s h]
+    remaining s = s.cb ++ s.cblk.drop s.cnext ++ tailBytes s := by
+  unfold remaining tailBytes; rw [client_take s h]
 
 theorem inv_moveFwd (s : State) (m : Nat) (hi : Inv s) : Inv (moveFwd s m) := by
   unfold moveFwd
   split
   · exact { cbIn := by have := hi.cbIn; simp; omega, bufLt := hi.bufLt, clientEq := hi.clientEq,
-            prov := hi.prov, eofSrc := hi.eofSrc, srcOk := hi.srcOk }
+            prov := hi.prov, eofSrc := hi.eofSrc, srcOk := hi.srcOk, laterOk := hi.laterOk }
   · exact hi
 
 theorem remaining_moveFwd (s : State) (m : Nat) : remaining (moveFwd s m) = remaining s := by
